@@ -341,13 +341,19 @@ HexVerdict(o, a64) ==
 RexEmitted(o) == o.m = 64 /\ \E j \in 1..Len(o.b) : o.b[j] >= 64 /\ o.b[j] <= 79
 
 ShortEmitted(o) == Len(o.b) <= 4 /\ \E j \in 1..Len(o.ops) : o.ops[j].t \in {"l", "lb"}
-\* mod_mr and mod_rm are contradictory hints: when both are given the text has to show at least one of them
-HintsOk(G, opts) == LET M == G \ opts IN M = {} \/ ({"modmr", "modrm"} \subseteq G /\ M \subseteq {"modmr", "modrm"} /\ Cardinality(M) = 1)
+\* mod_mr / mod_rm and rep / repne are contradictory pairs: when both of a pair are given the text has to show at least one of them
+\* (asmjit prints {modrm}, rep; the assembler refuses rep+repne with InvalidPrefixCombination)
+Partner(w) == CASE w = "modmr" -> "modrm" [] w = "modrm" -> "modmr" [] w = "rep" -> "repne" [] w = "repne" -> "rep" [] OTHER -> ""
+HintsOk(G, opts) == \A w \in G \ opts : Partner(w) \in G /\ Partner(w) \in opts
 GivenOptsOk(o, opts) == opts \subseteq ExpectedOpts(o.opt) /\ HintsOk(ExpectedOpts(o.opt), opts)
 EmittedOptsOk(o, opts) == /\ HintsOk(ExpectedOpts(o.opt), opts)
                           /\ opts \ ExpectedOpts(o.opt) \subseteq {"rex", "short"}
                           /\ ("rex" \in opts \ ExpectedOpts(o.opt) => RexEmitted(o))
                           /\ ("short" \in opts \ ExpectedOpts(o.opt) => ShortEmitted(o))
+
+\* a refused request is described with the options the assembler had worked out when it gave up: "rex" may have been added for the
+\* operands' sake (64-bit mode; e.g. InvalidRexPrefix: rex mov dil, ch)
+RefusedOptsOk(o, opts) == HintsOk(ExpectedOpts(o.opt), opts) /\ opts \ ExpectedOpts(o.opt) \subseteq {"rex"} /\ o.m = 64
 
 \* ------------------------------------------------------------------------------------------------------------
 \* the byte side of the decorations: what the appended bytes MEAN (Intel SDM vol. 2, 2.7 EVEX prefix: P2 = z L'L b V' aaa)
@@ -390,7 +396,7 @@ Verdict(o) ==
       bad == {j \in 1..Len(exp) : exp[j].k = "bad"}
   IN
   IF bad # {} THEN <<"U", exp[CHOOSE j \in bad : TRUE].role>>
-  ELSE IF isx /\ leg # "O" /\ ~GivenOptsOk(o, opts) /\ ~(leg = "L" /\ EmittedOptsOk(o, opts)) THEN <<"R", "prefix", 0, "options", "options">>
+  ELSE IF isx /\ leg # "O" /\ ~GivenOptsOk(o, opts) /\ ~(leg = "L" /\ EmittedOptsOk(o, opts)) /\ ~(leg = "R" /\ RefusedOptsOk(o, opts)) THEN <<"R", "prefix", 0, "options", "options">>
   ELSE LET given == MatchVerdict(exp, act, pe)
            r == IF given[1] = "ok" \/ ~isx \/ leg # "L" \/ EvexP2(o) < 0 THEN given
                 ELSE LET e == EmittedDeco(o) IN
